@@ -79,11 +79,11 @@ type ampMachine struct {
 	validated bool
 
 	initialDropped bool
-	rxInitial      int         // Initial packets processed (server has handshake/1-RTT write keys afterwards)
-	sentAEInitial  int         // ack-eliciting Initial packets sent (a genuine client Handshake packet needs the ServerHello)
-	largestSent    [2]int64    // per space i,h
-	queue          []Dgram     // what the server still wants to send
-	sig            []byte      // history signature for distinctness
+	rxInitial      int      // Initial packets processed (server has handshake/1-RTT write keys afterwards)
+	sentAEInitial  int      // ack-eliciting Initial packets sent (a genuine client Handshake packet needs the ServerHello)
+	largestSent    [2]int64 // per space i,h
+	queue          []Dgram  // what the server still wants to send
+	sig            []byte   // history signature for distinctness
 	cls            map[string]bool
 	blockedPending bool // currently blocked by the limit with something to send
 }
